@@ -1,6 +1,6 @@
 /-
 Bridge for C02: fingerprints of the normalised source of the functions the models
-transcribe (Model/Sanitize.lean, Model/Toposort.lean), regenerated from /repo on every run.
+transcribe (Model/Sanitize.lean, Model/Toposort.lean, Model/VertexFeatures.lean, Model/ScanLoops.lean), regenerated from /repo on every run.
 The models were validated (O-level correspondence, notes/C02.md) against exactly these
 versions; a changed pin says "the hand model is no longer known to describe this function".
 (`appendToList` was re-pinned after the coordinator's fix commit that appends to a clipped
@@ -31,5 +31,38 @@ theorem pin_toposort_findSCC : Gen.C02.pin_toposort_sccFinderState_findSCC = "80
 theorem pin_toposort_GraphBuilder_Build : Gen.C02.pin_toposort_GraphBuilder_Build = "af42fde79b45233c" := by decide
 theorem pin_toposort_GraphBuilder_AddEdge : Gen.C02.pin_toposort_GraphBuilder_AddEdge = "3ab62e6428ab5582" := by decide
 theorem pin_toposort_GraphBuilder_EnsureNode : Gen.C02.pin_toposort_GraphBuilder_EnsureNode = "24ae4d60bca1f916" := by decide
+-- graph construction from struct literals (Model/VertexFeatures.lean); `analyseStructs` and
+-- `hasDynamic` are pinned because the model takes their OUTPUT as its input (positions and
+-- explicitness per struct literal; no dynamic fields in the modelled fragment)
+theorem pin_toposort_VertexFeatures : Gen.C02.pin_toposort_VertexFeatures = "6f05a62be47069a4" := by decide
+theorem pin_toposort_addEdges : Gen.C02.pin_toposort_vertexFeatures_addEdges = "7cc89bdc9afb20db" := by decide
+theorem pin_toposort_compareStructMeta : Gen.C02.pin_toposort_vertexFeatures_compareStructMeta = "7f95a9a8b35df426" := by decide
+theorem pin_toposort_batch_isExplicit : Gen.C02.pin_toposort_structMetaBatch_isExplicit = "f7910ed74d3b5919" := by decide
+theorem pin_toposort_appendBatch : Gen.C02.pin_toposort_structMetaBatches_appendBatch = "11b14324ec362601" := by decide
+theorem pin_toposort_analyseStructs : Gen.C02.pin_toposort_analyseStructs = "a16ba8a946cc1a5b" := by decide
+theorem pin_toposort_hasDynamic : Gen.C02.pin_toposort_structMeta_hasDynamic = "2a3e08d6ef51e3f8" := by decide
+
+-- the scanner's dispatch and loops (Model/ScanLoops.lean)
+theorem pin_scanner_next : Gen.C02.pin_scanner_Scanner_next = "4dd23fe72be50da9" := by decide
+theorem pin_scanner_Init : Gen.C02.pin_scanner_Scanner_Init = "8a1daa0240f564d3" := by decide
+theorem pin_scanner_isLetter : Gen.C02.pin_scanner_isLetter = "7aecc90050bc9728" := by decide
+theorem pin_scanner_isDigit : Gen.C02.pin_scanner_isDigit = "da5acf79aeff31b3" := by decide
+theorem pin_scanner_digitVal : Gen.C02.pin_scanner_digitVal = "10408a34ff508f9b" := by decide
+theorem pin_scanner_scanIdentifier : Gen.C02.pin_scanner_Scanner_scanIdentifier = "ad41905e29154764" := by decide
+theorem pin_scanner_scanFieldIdentifier : Gen.C02.pin_scanner_Scanner_scanFieldIdentifier = "8a2ef1e485ff91a2" := by decide
+theorem pin_scanner_scanComment : Gen.C02.pin_scanner_Scanner_scanComment = "c15cdd15739ba840" := by decide
+theorem pin_scanner_skipWhitespace : Gen.C02.pin_scanner_Scanner_skipWhitespace = "8ed44dd8247d3a8a" := by decide
+theorem pin_scanner_recoverParen : Gen.C02.pin_scanner_Scanner_recoverParen = "049341926de4efdc" := by decide
+theorem pin_scanner_consumeQuotes : Gen.C02.pin_scanner_Scanner_consumeQuotes = "90a17b53fb88b472" := by decide
+theorem pin_scanner_scanHashes : Gen.C02.pin_scanner_Scanner_scanHashes = "b6afb35f43d723c9" := by decide
+theorem pin_scanner_consumeStringClose : Gen.C02.pin_scanner_Scanner_consumeStringClose = "99ab59f3f07d775f" := by decide
+theorem pin_scanner_scanEscape : Gen.C02.pin_scanner_Scanner_scanEscape = "797f428a147aef6f" := by decide
+theorem pin_scanner_scanString : Gen.C02.pin_scanner_Scanner_scanString = "983ef5dcdf6576cb" := by decide
+theorem pin_scanner_popInterpolation : Gen.C02.pin_scanner_Scanner_popInterpolation = "866cdcaf74bd11eb" := by decide
+theorem pin_scanner_ResumeInterpolation : Gen.C02.pin_scanner_Scanner_ResumeInterpolation = "3aed8293d9693a6e" := by decide
+theorem pin_scanner_scanAttribute : Gen.C02.pin_scanner_Scanner_scanAttribute = "a84ad2fdb4420f7d" := by decide
+theorem pin_scanner_scanAttributeTokens : Gen.C02.pin_scanner_Scanner_scanAttributeTokens = "c26ed2004ce3c642" := by decide
+theorem pin_scanner_switch2 : Gen.C02.pin_scanner_Scanner_switch2 = "4c47f82ae3efbba1" := by decide
+theorem pin_scanner_Scan : Gen.C02.pin_scanner_Scanner_Scan = "e9b435645f244f67" := by decide
 
 end CueVerif.Bridge.C02
